@@ -215,6 +215,7 @@ def size_shapes(rnd):
     out.append(("repeated-return-single", 'def rr { if f1 == 1 { return "only" weighted 1 } else { if f2 == 1 { return "only" weighted 1 } } }'))
     # many splitters, duplicates in the splitter list
     out.append(("splitters-10", 'def sp { splitters: a, b, c, d, e, f, g, h, i, j return "x" weighted 1, "y" weighted 1 }'))
+    out.append(("splitters-3000", "def sp { splitters: " + ", ".join(f"s{i:04d}" for i in range(3000)) + ' return "x" weighted 1, "y" weighted 1 }'))
     out.append(("splitter-repeated", 'def sp { splitters: a, a return "x" weighted 1, "y" weighted 1 }'))
     out.append(("splitter-reverse-order", 'def sp { splitters: z, y, x, a if x == 1 { return "x" weighted 1, "y" weighted 1 } }'))
     return out
